@@ -337,7 +337,7 @@ theorem fresh_never_flagged (c : Cfg) (cat : Cat) (draw : Nat) (fv : Int) (d : S
           | none => simp only [hc, Except.ok.injEq, Prod.mk.injEq] at hh; exact hh.1.symm
           | some cls =>
             simp only [hc] at hh
-            cases hg : generateRounds cls draw fv <;> simp [hg, Except.map] at hh
+            cases hg : generateChecked cls draw fv <;> simp [hg, Except.map] at hh
             exact hh.1.symm
         subst hdd
         have hident := hid s hf
@@ -348,7 +348,7 @@ theorem fresh_never_flagged (c : Cfg) (cat : Cat) (draw : Nat) (fv : Int) (d : S
         | none => simp
         | some cls =>
           simp only [hc] at hh
-          cases hg : generateRounds cls draw fv with
+          cases hg : generateChecked cls draw fv with
           | error e => simp [hg, Except.map] at hh
           | ok k =>
             simp only [hg, Except.map, Except.ok.injEq, Prod.mk.injEq] at hh
@@ -383,7 +383,7 @@ theorem fresh_never_flagged (c : Cfg) (cat : Cat) (draw : Nat) (fv : Int) (d : S
                     | some y =>
                       have := hcok.mx y hcm
                       by_cases hy : y = 0 <;> simp [hcm, eff, hy] at hbb; omega)
-                (fun dd hdd => using_default_in_window b cls a hbok.ok hu hw dd hdd) draw fv k hg
+                (fun dd hdd => using_default_in_window b cls a hbok.ok hu hw dd hdd) draw fv k (generateChecked_ok cls draw fv k hg).1
               exact this.2
 
 end Lemmas.Context
